@@ -92,14 +92,19 @@ def _parse(out):
         unwind_fail = "unwinding assertion" in chunk and st == "failed" and any("unwinding" in f[0] for f in failed)
         # concrete playback values
         vals = []
-        mp = re.search(r"let concrete_vals: Vec<Vec<u8>> = vec!\[(.*?)\n\s*\];", chunk, re.S)
-        if mp:
-            for mv in re.finditer(r"vec!\[([0-9, ]*)\]", mp.group(1)):
-                vals.append([int(x) for x in mv.group(1).split(",") if x.strip()])
+        blocks = re.split(r"Concrete playback unit test for", chunk)[1:]
+        blocks = [b for b in blocks if "Check for `cover`" not in b] or []
+        for b in blocks[:1]:
+            mp = re.search(r"let concrete_vals: Vec<Vec<u8>> = vec!\[(.*?)\n\s*\];", b, re.S)
+            if mp:
+                for mv in re.finditer(r"vec!\[([0-9, ]*)\]", mp.group(1)):
+                    vals.append([int(x) for x in mv.group(1).split(",") if x.strip()])
         tm = re.search(r"Verification Time: ([0-9.]+)s", chunk)
         res[name] = {"status": st, "checks": checks, "failed": failed, "unsat_cover": unsat_cover,
                      "unwind_fail": unwind_fail, "concrete": vals,
-                     "time_s": float(tm.group(1)) if tm else None, "chunk_tail": chunk[-1500:]}
+                     "time_s": float(tm.group(1)) if tm else None,
+                     "chunk_tail": "\n".join("Failed Checks: %s  File: %s line %s" % f for f in failed)[:1500]
+                     + "\n" + (m.group(0) if m else "")}
     return res
 
 
